@@ -122,6 +122,12 @@ func (m *SigningProposalFSM) actionPartialSignConfirmationReceived(inEvent fsm.E
 		return
 	}
 
+	if request.BatchID != m.payload.SigningProposalPayload.BatchID {
+		err = fmt.Errorf("partial signs are for batch {\"%s\"}, but the current batch is {\"%s\"}",
+			request.BatchID, m.payload.SigningProposalPayload.BatchID)
+		return
+	}
+
 	if !m.payload.SigningQuorumExists(request.ParticipantId) {
 		err = errors.New("{ParticipantId} not exist in quorum")
 		return
